@@ -56,3 +56,30 @@ From TA Require Import XR Proofs.XBase Proofs.XSma Proofs.XSd.
 Theorem C15_bb_average_is_sma : forall p mu b s xs, bb_new XROps p (Fin mu) = Ok b -> sma_new XROps p = Ok s ->
   map (fun o => hd XNaN o) (XSd.bb_outs b (map Fin xs)) = sma_outs s (map Fin xs).
 Proof. exact bb_average_is_sma. Qed.
+
+(* binary64: BollingerBands.average (first output; the Welford running mean) and SimpleMovingAverage of the same period fed the same
+   inputs differ by at most (28 t + 2) * 2^-53 * M after t inputs, which is inside the tolerance tau(t) * M of the property —
+   for every period < 2^40, every stream of at most 2^40 - 2 finite inputs of magnitude at most M, 1 <= M <= 2^400.
+   (Both are within a multiple of t * 2^-53 * M of the exact mean of the window: C01_sma_binary64_error and sd_mean_float_error.) *)
+From Coq Require Import List Floats.
+From Flocq Require Import Core.
+From TA Require Import FloatInst Proofs.Ring Proofs.FloatErr Proofs.FloatSma Proofs.FloatSdMean.
+Theorem C15_bb_average_binary64_vs_sma : forall p mu b sm xs M, bb_new FOps p mu = Ok b -> sma_new FOps p = Ok sm -> (p < 1099511627776)%N ->
+  (1 <= M)%R -> (M <= bpow radix2 400)%R -> Forall (okin M) xs -> (INR (length xs) + 2 <= bpow radix2 40)%R ->
+  Forall2 (fun ab hh => let avg := hd 0%float (fst ab) in
+             finF avg /\ finF (snd ab) /\ (Rabs (FR avg - FR (snd ab)) <= (28 * INR (length hh) + 2) * u * M)%R)
+          (combine (Wiring.bb_outs FOps b xs) (Wiring.sma_outs' FOps sm xs)) (prefixes_from [] xs).
+Proof. exact bb_average_vs_sma_float. Qed.
+Theorem C15_bb_average_binary64_within_tau : forall p mu b sm xs M, bb_new FOps p mu = Ok b -> sma_new FOps p = Ok sm -> (p < 1099511627776)%N ->
+  (1 <= M)%R -> (M <= bpow radix2 400)%R -> Forall (okin M) xs -> (INR (length xs) + 2 <= bpow radix2 40)%R ->
+  Forall2 (fun ab hh => let avg := hd 0%float (fst ab) in let t := INR (length hh) in
+             finF avg /\ finF (snd ab) /\ (Rabs (FR avg - FR (snd ab)) <= (1 / 10 ^ 12 + 1 / 10 ^ 15 * (t * R_sqrt.sqrt t)) * M)%R)
+          (combine (Wiring.bb_outs FOps b xs) (Wiring.sma_outs' FOps sm xs)) (prefixes_from [] xs).
+Proof. exact bb_average_vs_sma_within_tau. Qed.
+(* the running mean itself against the exact mean of the last min(t, n) inputs *)
+Theorem C15_sd_mean_binary64_error : forall p s xs M, sd_new FOps p = Ok s -> (p < 9007199254740992)%N ->
+  (1 <= M)%R -> (M <= bpow radix2 400)%R -> Forall (okin M) xs -> (INR (length xs) + 2 <= bpow radix2 40)%R ->
+  Forall2 (fun md hh => finF (fst md) /\
+            (Rabs (FR (fst md) - mean (map FR (lastn (N.to_nat p) hh))) <= 14 * INR (length hh) * u * M)%R)
+          (Wiring.sd_mean_outs FOps s xs) (prefixes_from [] xs).
+Proof. exact sd_mean_float_error. Qed.
